@@ -664,3 +664,45 @@ def ref_col(o, name):
     f = dict(o["feats"])[s]
     comps = [[k, n, 1, [[row[j]] for row in m]] for k, n, c, m in f["comps"]]
     return s, dict(f, comps=comps)
+
+
+# ------------------------------------------------------------ required stream
+def merge_stats(a, b):
+    """sum two stats() dictionaries (ints and nested dicts of ints)"""
+    out = dict(a)
+    for k, v in b.items():
+        if k not in out:
+            out[k] = v
+        elif isinstance(v, dict):
+            out[k] = merge_stats(out[k], v)
+        elif isinstance(v, (int, float)) and not isinstance(v, bool):
+            out[k] = out[k] + v
+        elif isinstance(v, bool):
+            out[k] = out[k] or v
+    return out
+
+
+def greedy_required(draw, run, stats, problems, base_cases, seed, cap=4000):
+    """A deterministic stream (own constant seed, independent of VERIF_SEED and of the tier) that alone satisfies every
+    requirement of sanity(): candidates are drawn from the module's random generator under the constant seed and kept only
+    when they remove at least one outstanding requirement (greedy cover).  `problems(d)` lists the unmet requirements of
+    a stats dictionary d; base_cases are the hand-written deterministic families."""
+    rng = C.Rng(seed)
+    acc = stats(base_cases, [run(c) for c in base_cases]) if base_cases else None
+    left = problems(acc) if acc is not None else None
+    kept = []
+    for _ in range(cap):
+        if left is not None and not left:
+            break
+        c = draw(rng)
+        try:
+            o = run(c)
+        except Exception:
+            continue
+        d = stats([c], [o])
+        new = d if acc is None else merge_stats(acc, d)
+        p_new = problems(new)
+        if left is None or len(p_new) < len(left):
+            kept.append(c)
+            acc, left = new, p_new
+    return kept, (left or [])
